@@ -244,6 +244,12 @@ func cmdRegistry(args []string) {
 		case rng.Intn(12) == 0:
 			register(s, true)  // in a locked world: must panic and roll back
 			register(s, false) // then for real
+		case rng.Intn(10) == 0:
+			// a rejected registration must leave nothing behind for the type that gets the id next
+			register(s, true)
+			other := nextShape()
+			register(other, false)
+			register(s, false)
 		default:
 			register(s, false)
 		}
